@@ -4,6 +4,8 @@ CONSTANTS
   S = 3
   Ws = {0, 1, 2, 3}
   WriterTyped = {TRUE, FALSE}
+  Namings = {"plain"}
+  RetireRule = "equal"
   Reversed = {FALSE}
   FnStep = 2
   Isolated = TRUE
